@@ -80,7 +80,23 @@ def sanitizer_search(ctx, langdirs):
     ctx.coverage["sanitizer_search"] = {"role": "search aid only, not part of the claim", "runs": runs, "reports": reports}
 
 
+class _JudgeFirst:
+    """Buffers violations and hands the ones with a concrete failing input to ctx first
+    (ctx.finish writes replay files for the first few only)."""
+    def __init__(self, ctx):
+        self.ctx, self.buf = ctx, []
+
+    def violation(self, kind, what, payload, fingerprint=None, found_input=True):
+        self.buf.append((0 if (found_input and kind == "judge") else 1, len(self.buf), kind, what, payload, fingerprint, found_input))
+
+    def flush(self):
+        for _, _, kind, what, payload, fp, fi in sorted(self.buf, key=lambda x: (x[0], x[1])):
+            self.ctx.violation(kind, what, payload, fingerprint=fp, found_input=fi)
+        self.buf = []
+
+
 def run(ctx):
+    jf = _JudgeFirst(ctx)
     ctx.trusted += [
         "hand models TsVerif/C07/Model.lean of array.h and of the link_count control flow of stack_node_add_link (array model tied by correspondence through the unity build; add_link tied syntactically only)",
         "the counting/poisoning allocator installed through ts_set_allocator sees every allocation of the runtime (external scanners and the Rust side allocate elsewhere)",
@@ -98,6 +114,7 @@ def run(ctx):
     explorer = ctx.cargo_bin("c07")
     cunit = ctx.cunit("cunit_c07")
     if not (explorer and cunit and os.path.exists(driver)):
+        jf.flush()
         return ctx.finish()
     ops = os.path.join(ctx.workdir, "ops.txt")
     if ctx.replay:
@@ -121,8 +138,9 @@ def run(ctx):
                 if line.startswith("spec "):
                     last = line.rstrip("\n").split(" ", 2)[2]
         ctx.oblige("run:explorer", False, out[-800:])
-        ctx.violation("judge", "the explorer process died or hung (signal/abort/timeout) in history `%s`" % last,
+        jf.violation("judge", "the explorer process died or hung (signal/abort/timeout) in history `%s`" % last,
                       {"case": "crash", "spec": last, "output": out[-2000:]}, fingerprint={"clause": "crash"})
+        jf.flush()
         return ctx.finish()
     specs = {}
     for line in open(ops, errors="replace"):
@@ -166,12 +184,12 @@ def run(ctx):
                     if p.startswith("heapleaf=") or p.startswith("changed="):
                         k, v = p.split("=")
                         fp[k] = v
-            ctx.violation("judge", "C07 judge failed on the real library's output: %s (%s)" % (kv["judge"], specs.get(cid, "")), payload, fingerprint=fp)
+            jf.violation("judge", "C07 judge failed on the real library's output: %s (%s)" % (kv["judge"], specs.get(cid, "")), payload, fingerprint=fp)
         if kv["corr"] != "na":
             corr_cmp += 1
             if kv["corr"] != "ok":
                 corr_bad += 1
-                ctx.violation("corr", "model and real code disagree (%s): %s" % (kv["kind"], kv["corr"]),
+                jf.violation("corr", "model and real code disagree (%s): %s" % (kv["kind"], kv["corr"]),
                               dict(payload, correspondence="TsVerif.C07.Arr / generated ts_subtree_can_inline vs lib/src/array.h, subtree.c"),
                               fingerprint={"corr": "diff", "kind": kv["kind"]}, found_input=False)
     ctx.oblige("corr:array-model+can_inline=real", corr_bad == 0, "%d disagreements" % corr_bad)
@@ -196,4 +214,5 @@ def run(ctx):
     })
     if evals == 0:
         ctx.oblige("run:driver-produced-results", False, out[-500:])
+    jf.flush()
     return ctx.finish()
